@@ -284,6 +284,9 @@ class GeoIndex:
         ]).T
 
         if not return_distance:
+            if pairs.size and self.shuffler is not None:
+                # The build points were shuffled, translate their indices back
+                pairs[0, :] = self.shuffler[pairs[0, :]]
             return pairs
 
         if pairs.size == 0:
